@@ -451,7 +451,20 @@ def collect_row_stores(ctx, func: Func, env: Env, containers: Set[str], elements
             if pname is None:
                 continue
             (ccont if role == "container" else celem).add(pname)
-        out.extend(collect_row_stores(ctx, callee, cenv, ccont, celem, depth - 1, via + [callee.qualname], _seen))
+        sub = collect_row_stores(ctx, callee, cenv, ccont, celem, depth - 1, via + [callee.qualname], _seen)
+        # a row handed to a helper stays under the guards of the call site
+        elem_args = [a for a in list(call.args) + [k.value for k in call.keywords] if flow.is_element(a)]
+        if elem_args and celem:
+            inherited: List[Atom] = []
+            nid = flow.cfg.node_of(call)
+            for a in elem_args:
+                probe = RowStore(func, call, None, frozenset(), None, "call", elem_expr=a, env=env, flow=flow)
+                flow._fill_guards(probe, nid, a)
+                inherited.extend(probe.atoms)
+            for s_ in sub:
+                if isinstance(s_.elem_expr, ast.Name) and s_.elem_expr.id in celem or s_.func is not callee:
+                    s_.atoms = list(s_.atoms) + [a for a in inherited if repr(a) not in {repr(x) for x in s_.atoms}]
+        out.extend(sub)
     return out
 
 
